@@ -755,6 +755,91 @@ func runC16(c *Ctx) {
 		}
 	}
 
+	// ------------------------------------------------------------ F11
+	c.Rule("C16.F11", "SAME-VALUE", "gas returned never exceeds gas supplied — a child frame is started with gas its parent has paid: in opCreate / opCreate2 the gas handed to evm.Create / Create2 is the very value that contract.UseGas charged just before; in opCall / opCallCode / opDelegateCall / opStaticCall it is evm.callGasTemp (charged by the dynamic gas function) plus at most the constant call stipend. Otherwise the unused part flows back through contract.Gas += returnGas and a frame ends with more gas than it was given")
+	c.Min(6)
+	{
+		useGas := w.FuncObj("core/vm", "Contract", "UseGas")
+		for _, spec := range []struct {
+			op, callee string
+			create     bool
+		}{{"opCreate", "Create", true}, {"opCreate2", "Create2", true}, {"opCall", "Call", false}, {"opCallCode", "CallCode", false}, {"opDelegateCall", "DelegateCall", false}, {"opStaticCall", "StaticCall", false}} {
+			fn := w.Fn("core/vm", "", spec.op)
+			c.sawFunc(fname(fn))
+			found := false
+			for _, ci := range callInstrs(fn) {
+				o := calleeObj(ci)
+				if o == nil || o.Name() != spec.callee || recvName(o) != "EVM" {
+					continue
+				}
+				found = true
+				c.sites++
+				// the uint64 argument is the gas
+				var gas ssa.Value
+				for _, a := range callArgs(ci) {
+					if b, ok := a.Type().Underlying().(*types.Basic); ok && b.Kind() == types.Uint64 {
+						gas = a
+					}
+				}
+				if gas == nil {
+					c.Fail(spec.op+"#child-gas-was-paid", ci.Pos(), "no gas argument found in the call of "+spec.callee)
+					continue
+				}
+				if spec.create {
+					ok := false
+					for _, ug := range callsTo(fn, useGas) {
+						if instrDominates(ug.(ssa.Instruction), ci.(ssa.Instruction)) && stripConvNoBind(callArgs(ug)[0]) == stripConvNoBind(gas) {
+							ok = true
+						}
+					}
+					c.Check(spec.op+"#child-gas-was-paid", ci.Pos(), ok, ifelse(ok, "the gas handed to the new frame is the value UseGas charged", "the gas handed to "+spec.callee+" is not the value that contract.UseGas charged before it: the frame can return more gas than its parent paid for"))
+					continue
+				}
+				var bad string
+				seen := map[ssa.Value]bool{}
+				var walk func(v ssa.Value)
+				walk = func(v ssa.Value) {
+					if seen[v] || bad != "" {
+						return
+					}
+					seen[v] = true
+					switch x := v.(type) {
+					case *ssa.Const:
+					case *ssa.Phi:
+						for _, e := range x.Edges {
+							walk(e)
+						}
+					case *ssa.BinOp:
+						if x.Op != token.ADD {
+							bad = "a " + x.Op.String() + " at " + w.Pos(x.Pos())
+							return
+						}
+						walk(x.X)
+						walk(x.Y)
+					case *ssa.Convert:
+						walk(x.X)
+					case *ssa.ChangeType:
+						walk(x.X)
+					case *ssa.UnOp:
+						if fa, ok := x.X.(*ssa.FieldAddr); ok && x.Op == token.MUL {
+							if f := fieldOfAddr(fa); f != nil && f.Name() == "callGasTemp" {
+								return
+							}
+						}
+						bad = "a value other than evm.callGasTemp at " + w.Pos(x.Pos())
+					default:
+						bad = fmt.Sprintf("%T at %s", v, w.Pos(v.Pos()))
+					}
+				}
+				walk(gas)
+				c.Check(spec.op+"#child-gas-was-paid", ci.Pos(), bad == "", ifelse(bad == "", "the gas handed to the callee is evm.callGasTemp (+ constant stipend)", "the gas handed to "+spec.callee+" derives from "+bad+", not only from the amount the dynamic gas function charged (callGasTemp) and the constant stipend"))
+			}
+			if !found {
+				c.Undecided(spec.op+"#child-gas-was-paid", fn.Pos(), "no call of evm."+spec.callee+" found in "+spec.op)
+			}
+		}
+	}
+
 	// ------------------------------------------------------------ F4
 	c.Rule("C16.F4", "CONFINED", "Contract.Gas is increased only by gas returned from a callee frame (the call/create opcodes) or set when the contract is created")
 	c.Min(4)
